@@ -126,7 +126,7 @@ def variants_for(k: int, net: list[dict], tier: str) -> list[list[str]]:
     out = []
     if tier != "quick" or k % 2 == 0:
         out.append(["int", "fwd", "fwd"] if k % 4 < 2 else ["int", "rev", "rev"])
-    n = (k % 2) if tier == "quick" else 2      # quick: int and one float embedding alternate from case to case
+    n = (k % 2) if tier == "quick" else 1      # quick: int and one float embedding alternate from case to case
     for j in range(n):
         e = FLOATS[(k // 2 + j) % len(FLOATS)]
         out.append([e, "rev", "rev"] if (k // 2 + j) % 2 == 0 else [e, "fwd", "fwd"])
@@ -261,7 +261,7 @@ def run(ctx: Ctx) -> int:
     ntr = decide(ctx, cases, "tlc")
     rng = random.Random(ctx.seed * 1000003 + 909)
     rcases = []
-    want = 100 if tier == "quick" else 1000
+    want = 100 if tier == "quick" else 600
     while len(rcases) < want:
         c = random_pairs(rng)
         if c is None:
